@@ -49,12 +49,12 @@ def can_do_matrix(report, drv):
                 report.case(("can_do", enabled, action_roles, tr), nontrivial=enabled, sample={"action": action_roles, "token": tr, "allowed": got})
 
 
-def path_case(report, backend, save_roles, query_roles, ident_roles, keys):
+def path_case(report, backend, save_roles, query_roles, ident_roles, keys, kind=1):
     """one connection with the given identity (None = unauthenticated) tries EVENT and REQ"""
     relay = Relay(backend, authentication={"enabled": True, "relay_urls": [URL], "actions": {"save": save_roles, "query": query_roles}})
     try:
         sk = keys[0]
-        payload = {"backend": backend, "save": save_roles, "query": query_roles, "identity": ident_roles}
+        payload = {"backend": backend, "save": save_roles, "query": query_roles, "identity": ident_roles, "kind": kind}
         if ident_roles is not None:
             relay.set_roles(sk.public_key.hex(), ident_roles)
         c = Conn(relay)
@@ -66,10 +66,11 @@ def path_case(report, backend, save_roles, query_roles, ident_roles, keys):
         relay.set_roles(obs_key.public_key.hex(), "arws")
         obs = Conn(relay)
         obs.send(["AUTH", auth_answer(relay, obs_key, obs.challenge())])
-        obs.send(["REQ", "watch", {"kinds": [1]}])
+        obs.send(["REQ", "watch", {"kinds": [1, 5, 20001, 30000]}])
         n_obs = len(obs.out)
         before = relay.store.ids()
-        ev = relay.signed_event(sk, kind=1, content="hello from %s" % (ident_roles,))
+        ev = relay.signed_event(sk, kind=kind, content="hello from %s" % (ident_roles,), tags=[["d", "x"]] if kind == 30000 else [])
+        ephemeral = 20000 <= kind < 30000
         n = len(c.out)
         c.send(["EVENT", ev])
         oks = [f for f in c.frames(n) if isinstance(f, list) and f and f[0] == "OK"]
@@ -79,13 +80,13 @@ def path_case(report, backend, save_roles, query_roles, ident_roles, keys):
         if len(oks) != 1:
             report.property_failure("%s: %d OK frames for one EVENT" % (backend, len(oks)), payload, None)
         elif allowed:
-            if not (oks[0][2] and stored):
-                report.property_failure("%s: an authorised EVENT was refused or not stored: %r" % (backend, oks[0]), payload, None)
+            if not (oks[0][2] and (stored or (ephemeral and pushed))):
+                report.property_failure("%s: an authorised EVENT (kind %d) was refused or not stored / broadcast: %r" % (backend, kind, oks[0]), payload, None)
         else:
             if oks[0][2] or stored or pushed:
                 report.property_failure(
-                    "%s: a connection with roles %r (save needs %r) got its event %s" % (
-                        backend, sorted(eff), save_roles,
+                    "%s: a connection with roles %r (save needs %r) got its kind-%d event %s" % (
+                        backend, sorted(eff), save_roles, kind,
                         "acknowledged" if oks[0][2] else ("stored" if stored else "broadcast")), payload, None)
             elif "restricted" not in str(oks[0][3]):
                 report.property_failure("%s: refusal does not say 'restricted': %r" % (backend, oks[0]), payload, None)
@@ -118,7 +119,7 @@ def path_case(report, backend, save_roles, query_roles, ident_roles, keys):
                 report.property_failure("%s: events were pushed to a connection whose REQ had been refused" % backend, payload, None)
         c.close()
         obs.close()
-        report.case(("path", backend, save_roles, query_roles, ident_roles), nontrivial=not (allowed and q_allowed),
+        report.case(("path", backend, save_roles, query_roles, ident_roles, kind), nontrivial=not (allowed and q_allowed),
                     sample={**payload, "event_ok": oks[0][2] if oks else None, "req_events": len(got_events)})
         report.count("paths_" + backend)
     finally:
@@ -195,7 +196,8 @@ def run(report, tier, seed):
     keys = [PrivateKey(bytes([i + 1]) * 32) for i in range(3)]
     report.coverage["rule"] = (
         "can_do over enabled x configured roles {a,r,w,rw,s,arws,unset} x token roles {none,{},a,r,w,rw,s}; through "
-        "start_client on both backends: save roles x query roles x connection identity (unauthenticated, r, w, rw, s) with "
+        "start_client on both backends: save roles x query roles x connection identity (unauthenticated, r, w, rw, s) x event kind "
+        "(regular, ephemeral, parameterised replaceable) with "
         "an all-powerful observer watching broadcasts; the homeserver output validator on stored answers and live pushes; "
         "role assignments set repeatedly and read back; non-trivial = something must be refused")
     report.assumptions += ["identities are established with real NIP-42 answers; the per-object hook evaluate_target is the shipped no-op"]
@@ -210,8 +212,13 @@ def run(report, tier, seed):
         else:
             cases = [(s, q, i) for (s, q) in combos for i in idents]
         for backend in ("sql", "kv"):
-            for s, q, i in cases:
+            for n, (s, q, i) in enumerate(cases):
                 path_case(report, backend, s, q, i, keys)
+                # the same path for an ephemeral (never stored, only broadcast) and a parameterised replaceable kind
+                if tier != "quick" or n % 2 == 0:
+                    path_case(report, backend, s, q, i, keys, kind=20001)
+                if tier != "quick" or n % 4 == 1:
+                    path_case(report, backend, s, q, i, keys, kind=30000)
             output_validator_case(report, backend, keys)
             roles_roundtrip(report, backend, rng, keys)
     finally:
@@ -232,7 +239,7 @@ def replay(report, path):
         for it in (data.get("violations") or []):
             r = it.get("replay") or {}
             if "save" in r:
-                path_case(report, r["backend"], r["save"], r["query"], r["identity"], keys)
+                path_case(report, r["backend"], r["save"], r["query"], r["identity"], keys, kind=r.get("kind", 1))
             elif r.get("case") == "output_validator":
                 output_validator_case(report, r["backend"], keys)
     finally:
